@@ -1051,8 +1051,9 @@ pub struct GlobalData {
     pub final_configuration: Option<Vec<String>>,
     pub environment: HashMap<String, DataArc>,
 
-    /// Stores any delayed send (with a "sendid"), Key: sendid
-    pub delayed_send: HashMap<String, Guard>,
+    /// Stores the guards of all pending delayed sends with a "sendid". Key: sendid,
+    /// value: (serial number of the send, guard) for each pending send with this id.
+    pub delayed_send: HashMap<String, Vec<(u32, Guard)>>,
     pub io_processors: HashMap<String, Arc<Mutex<Box<dyn EventIOProcessor>>>>,
 
     pub data: DataStore,
